@@ -290,6 +290,9 @@ def variants(draw):
     for s in secs:
         if s["kind"] != "O" and noise_p:
             s["lines"] = sprinkle(draw, s["lines"], noise_p)
+    if draw(st.integers(0, 9)) == 0:
+        # more blank / comment lines between the ~A title and the first row than any sample of lines a sniffer may take
+        asec["lines"] = [draw(NOISE) for _ in range(draw(st.integers(21, 30)))] + asec["lines"]
         if draw(st.integers(0, 5)) == 0:
             s["tlead"] = draw(TPAD)
             s["ttrail"] = draw(TPAD)
@@ -300,7 +303,7 @@ def variants(draw):
         var["dlm_space"] = False
         var.get("titles", {}).pop("A", None)
         S.apply_scaffold(spec, var)
-    return {"spec": spec, "mnemonic_case": draw(st.sampled_from(["upper", "preserve"])), "engine": draw(st.sampled_from(["numpy", "normal"]))}
+    return {"spec": spec, "mnemonic_case": draw(st.sampled_from(["upper", "preserve", "lower"])), "engine": draw(st.sampled_from(["numpy", "normal"]))}
 
 
 def mkrow(draw, toks, sep_char, rich):
